@@ -64,7 +64,7 @@ Proof. exact BridgeFacts.called_iff_fits. Qed.
 
 (* "If the argument count does not fit, an argument cannot be converted, or spread is misused, the
    function is not called and evaluation fails": state unchanged; Err - or Panic (Err at the entry)
-   for a nil given to a slice/map parameter, Unk where Go's conversion is outside the model *)
+   for a nil given to a slice/map parameter, Unk where the formatting of a value is outside the model *)
 Theorem not_called_on_error : forall hosts off f sg args spread st,
   callee_sig hosts f = Some sg ->
   (arity_ok sg (length args) spread = false \/ spread_ok sg args spread = false ->
@@ -154,12 +154,29 @@ Proof. exact BridgeFacts.spread_call_trace. Qed.
 (* ---------------- 3. conversion laws ---------------- *)
 
 (* "numbers to Go integers by truncation toward zero" (signed kinds int, int8..int64; the number
-   must be finite and the truncation must fit - otherwise Go's result is implementation-defined
-   and the model says Unk) *)
+   must be finite and the truncation must fit - otherwise the number cannot be converted, see
+   num_out_of_range_is_error) *)
 Theorem num_to_int_truncates : forall k d,
   int_signed k = true -> is_finite d = true -> wrap_int k (trunc_dec d) = trunc_dec d ->
   conv_to (TInt k) (VNum d) = Ok (VGoInt k (trunc_dec d)).
 Proof. exact BridgeFacts.num_to_int_truncates. Qed.
+
+(* NaN, the infinities and numbers whose truncation does not fit the integer kind "cannot be
+   converted": Err (so by not_called_on_error the function is not called and the outcome is Err) *)
+Theorem num_out_of_range_is_error : forall k d,
+  is_finite d = false \/ wrap_int k (trunc_dec d) <> trunc_dec d ->
+  conv_to (TInt k) (VNum d) = Err.
+Proof. exact BridgeFacts.num_out_of_range_is_error. Qed.
+
+(* the two cases are exhaustive and exclusive: a number given to a signed integer parameter is
+   either truncated or refused - never Unk, never Panic *)
+Theorem num_to_int_iff : forall k d, int_signed k = true ->
+  (conv_to (TInt k) (VNum d) = Ok (VGoInt k (trunc_dec d)) <->
+     is_finite d = true /\ wrap_int k (trunc_dec d) = trunc_dec d) /\
+  (conv_to (TInt k) (VNum d) = Err <->
+     is_finite d = false \/ wrap_int k (trunc_dec d) <> trunc_dec d) /\
+  (conv_to (TInt k) (VNum d) = Ok (VGoInt k (trunc_dec d)) \/ conv_to (TInt k) (VNum d) = Err).
+Proof. exact BridgeFacts.num_to_int_iff. Qed.
 
 Theorem fits_kind_iff : forall k z, int_signed k = true ->
   (wrap_int k z = z <-> - 2 ^ (int_bits k - 1) <= z < 2 ^ (int_bits k - 1)).
@@ -181,27 +198,30 @@ Proof. exact BridgeFacts.trunc_dec_spec. Qed.
 Theorem num_to_float : forall is32 d, conv_to (TFloat is32) (VNum d) = Ok (VGoFloat (dec_to_string d)).
 Proof. exact BridgeFacts.num_to_float. Qed.
 
-(* "anything to string by formatting": strings unchanged, numbers and booleans by their text,
-   null and nil pointers to "" ... *)
-Theorem any_to_string_formats_partial : forall v s,
-  conv_to_string v = Some s -> is_goint v = false ->
+(* "anything to string by formatting": every non-null value that convToString formats (strings
+   unchanged, numbers, booleans and Go integers by their text) arrives as that text; null arrives as "" *)
+Theorem any_to_string_formats :
+  (forall v s, v <> VNull -> conv_to_string v = Some s -> conv_to TString v = Ok (VStr s)) /\
+  conv_to TString VNull = Ok (VStr []).
+Proof. exact BridgeFacts.any_to_string_formats. Qed.
+
+(* the same in one equation *)
+Theorem any_to_string_formats_gen : forall v s,
+  conv_to_string v = Some s ->
   conv_to TString v = Ok (VStr (if is_null v then [] else s)).
-Proof. exact BridgeFacts.any_to_string_formats_partial. Qed.
+Proof. exact BridgeFacts.any_to_string_formats_gen. Qed.
 
 Theorem null_to_string_is_empty : conv_to TString VNull = Ok (VStr []) /\ conv_to TString VNilPtr = Ok (VStr []).
 Proof. exact BridgeFacts.null_to_string_is_empty. Qed.
 
-(* ... but NOT for a Go integer that formatInput leaves alone (int8, int16, uints from the data
-   map): reflect converts it to the string of that code point: int8(65) arrives as "A", not "65".
-   Full statement refuted:  forall v s, conv_to_string v = Some s -> is_null v = false ->
-                            conv_to TString v = Ok (VStr s) *)
-Theorem any_to_string_formats_refuted :
-  exists v s s', conv_to_string v = Some s /\ is_null v = false /\
-                 conv_to TString v = Ok (VStr s') /\ s' <> s.
-Proof. exact BridgeFacts.any_to_string_formats_refuted. Qed.
+(* in particular a Go integer that formatInput leaves alone (int8, int16, uints from the data map)
+   arrives as its digits: int8(65) arrives as "65" (not as the string of that code point, "A") *)
+Theorem goint_to_string_is_digits : forall k n,
+  conv_to TString (VGoInt k n) = Ok (VStr (dec_to_string (dec_of_Z n))).
+Proof. exact BridgeFacts.goint_to_string_is_digits. Qed.
 
-Theorem goint_to_string_is_rune : forall k n, conv_to TString (VGoInt k n) = Ok (VStr (encode_rune n)).
-Proof. exact BridgeFacts.goint_to_string_is_rune. Qed.
+Theorem goint_to_string_example : conv_to TString (VGoInt GInt8 65) = Ok (VStr [54; 53]).
+Proof. exact BridgeFacts.ex_goint_to_string. Qed.
 
 (* "null to nil for interface parameters" *)
 Theorem null_to_interface_is_nil : conv_to TIface VNull = Ok VNull.
@@ -214,9 +234,35 @@ Theorem array_to_slice_elementwise : forall t l l',
 Proof. exact BridgeFacts.array_to_slice_elementwise. Qed.
 
 Theorem array_to_slice_elementwise_conv : forall t l l',
-  Forall2 (fun x x' => conv_to t x = Ok x' /\ x' <> VNull) l l' ->
+  Forall2 (fun x x' => conv_to t x = Ok x') l l' ->
   conv_to (TSlice t) (VArr l) = Ok (VArr l').
 Proof. exact BridgeFacts.array_to_slice_elementwise_conv. Qed.
+
+(* an element that converts to nil (null for an interface element type) is kept as nil *)
+Theorem null_element_kept : forall l1 l2 l1' l2',
+  conv_to (TSlice TIface) (VArr l1) = Ok (VArr l1') ->
+  conv_to (TSlice TIface) (VArr l2) = Ok (VArr l2') ->
+  conv_to (TSlice TIface) (VArr (l1 ++ VNull :: l2)) = Ok (VArr (l1' ++ VNull :: l2')).
+Proof. exact BridgeFacts.null_element_kept. Qed.
+
+Theorem null_element_kept_example :
+  conv_to (TSlice TIface) (VArr [VStr [97]; VNull; VBool true]) = Ok (VArr [VStr [97]; VNull; VBool true]).
+Proof. exact BridgeFacts.ex_null_element_kept. Qed.
+
+(* maps to Go maps entry by entry: same keys in the same order, each value converted to the element
+   type; an entry whose value converts to nil is kept *)
+Theorem map_to_map_entrywise : forall t m m',
+  conv_to (TMapStr t) (VMap m) = Ok (VMap m') <->
+  Forall2 (fun e e' => fst e' = fst e /\ conv_to t (snd e) = Ok (snd e')) m m'.
+Proof. exact BridgeFacts.map_to_map_entrywise. Qed.
+
+Theorem map_keys_kept : forall t m m',
+  conv_to (TMapStr t) (VMap m) = Ok (VMap m') -> map fst m' = map fst m.
+Proof. exact BridgeFacts.map_keys_kept. Qed.
+
+Theorem null_entry_kept_example :
+  conv_to (TMapStr TIface) (VMap [([97], VNull); ([98], VBool true)]) = Ok (VMap [([97], VNull); ([98], VBool true)]).
+Proof. exact BridgeFacts.ex_null_entry_kept. Qed.
 
 (* ---------------- 4. results become formula numbers ---------------- *)
 
@@ -329,16 +375,24 @@ Print Assumptions variadic_tail_converted_by_element_type.
 Print Assumptions spread_expands_tail.
 Print Assumptions spread_call_trace.
 Print Assumptions num_to_int_truncates.
+Print Assumptions num_out_of_range_is_error.
+Print Assumptions num_to_int_iff.
 Print Assumptions fits_kind_iff.
 Print Assumptions trunc_dec_spec.
 Print Assumptions num_to_float.
-Print Assumptions any_to_string_formats_partial.
+Print Assumptions any_to_string_formats.
+Print Assumptions any_to_string_formats_gen.
 Print Assumptions null_to_string_is_empty.
-Print Assumptions any_to_string_formats_refuted.
-Print Assumptions goint_to_string_is_rune.
+Print Assumptions goint_to_string_is_digits.
+Print Assumptions goint_to_string_example.
 Print Assumptions null_to_interface_is_nil.
 Print Assumptions array_to_slice_elementwise.
 Print Assumptions array_to_slice_elementwise_conv.
+Print Assumptions null_element_kept.
+Print Assumptions null_element_kept_example.
+Print Assumptions map_to_map_entrywise.
+Print Assumptions map_keys_kept.
+Print Assumptions null_entry_kept_example.
 Print Assumptions results_normalised.
 Print Assumptions eval_result_normalised.
 Print Assumptions call_result_normalised.
